@@ -63,6 +63,9 @@ pub enum Mutation {
     DropLaterValue(u8),
     SwapValues(u8),
     AddValue(u8),
+    /// one header keeps its value but gets another name: as many names as before, the same values under
+    /// every name both sides share
+    RenameHeader(u8),
 }
 #[derive(Debug, Clone, PartialEq, Eq, Hash, Serialize, Deserialize)]
 pub enum Case {
@@ -481,6 +484,11 @@ pub fn judge(c: &Case) -> Result<(), (String, String)> {
                     other[k].1.push('x');
                     same = false;
                 }
+                Mutation::RenameHeader(i) if !other.is_empty() => {
+                    let k = *i as usize % other.len();
+                    other[k].0 = "x-renamed-header".into();
+                    same = false;
+                }
                 Mutation::ChangeLaterValue(i) | Mutation::DropLaterValue(i) | Mutation::SwapValues(i) | Mutation::AddValue(i) if multi2.iter().any(|(_, v)| v.len() >= 2) => {
                     let cands: Vec<usize> = (0..multi2.len()).filter(|k| multi2[*k].1.len() >= 2).collect();
                     let vs = &mut multi2[cands[*i as usize % cands.len()]].1;
@@ -506,7 +514,7 @@ pub fn judge(c: &Case) -> Result<(), (String, String)> {
                     }
                     same = multi2 == { let mut m = multi.clone(); m.reverse(); m };
                 }
-                Mutation::DropHeader(_) | Mutation::ChangeValue(_) | Mutation::AddHeader | Mutation::ChangeLaterValue(_) | Mutation::DropLaterValue(_) | Mutation::SwapValues(_) | Mutation::AddValue(_) => {
+                Mutation::DropHeader(_) | Mutation::ChangeValue(_) | Mutation::RenameHeader(_) | Mutation::AddHeader | Mutation::ChangeLaterValue(_) | Mutation::DropLaterValue(_) | Mutation::SwapValues(_) | Mutation::AddValue(_) => {
                     other.push(("x-extra-header".into(), "1".into()));
                     same = false;
                 }
@@ -568,6 +576,7 @@ pub fn strategy() -> BoxedStrategy<Case> {
         1 => any::<u8>().prop_map(Mutation::DropLaterValue),
         1 => any::<u8>().prop_map(Mutation::SwapValues),
         1 => any::<u8>().prop_map(Mutation::AddValue),
+        2 => any::<u8>().prop_map(Mutation::RenameHeader),
     ];
     let multi_headers = prop::collection::vec((prop_oneof![Just("set-cookie".to_string()), Just("link".to_string()), "x-m[a-c]".boxed()], prop::collection::vec("[!-~]{1,6}", 2..5)), 0..3);
     prop_oneof![
